@@ -297,10 +297,18 @@ def oracle_into_bench(dump):
     if wforacle.wf_violation(c):
         return None
     old_blocks = {k: set(g) for k, _, g, _ in dump['blocks']}
+    import copy as _copy
+    twin = _copy.copy(c)                      # a copy made BEFORE the conversion shares nothing with c
+    twin_snap = ct.dump_circuit(twin)
     try:
         c.into_bench()
     except Exception as e:  # noqa: BLE001
         return f'into_bench raises {type(e).__name__}: {e}'
+    if ct.dump_circuit(twin) != twin_snap:
+        return 'into_bench changed a copy of the circuit that was made before the call (shared mutable state)'
+    msg = oracle_into_bench_relabel(dump)
+    if msg:
+        return msg
     if list(c._inputs) != dump['inputs'] or list(c._outputs) != dump['outputs']:
         return 'inputs or outputs changed'
     bad = sorted({g.gate_type.name for g in c._gates.values()} - BENCH_SET)
@@ -361,6 +369,38 @@ def oracle_into_bench(dump):
 def G():
     from cirbo.core.circuit import gate
     return gate
+
+
+def oracle_into_bench_relabel(dump):
+    """convert; rename a converted comparison gate; add a NEW gate of the same kind under the freed label (operands
+    mirrored); convert again: the old gate must keep its function and the new one must get its own"""
+    cand = [(l, t, ops) for l, t, ops in dump['gates'] if t in ('GT', 'LT', 'GEQ', 'LEQ') and len(ops) == 2]
+    if not cand:
+        return None
+    l, t, ops = cand[0]
+    c = ct.build_circuit(dump)
+    try:
+        c.into_bench()
+        c.rename_gate(l, l + '~old')
+        c.emplace_gate(l, getattr(G(), t), (ops[1] if ops[1] != l else l + '~old', ops[0] if ops[0] != l else l + '~old'))
+        c.into_bench()
+    except Exception as e:  # noqa: BLE001
+        return f'into_bench / rename_gate / emplace_gate / into_bench raises {type(e).__name__}: {e}'
+    msg = wforacle.wf_violation(c)
+    if msg:
+        return 'after convert, rename, add, convert: not well formed: ' + msg
+    r = lambda x: l + '~old' if x == l else x
+    ref_dump = {'inputs': list(dump['inputs']), 'outputs': [],
+                'gates': [(r(k), tt, [r(o) for o in oo]) for k, tt, oo in dump['gates']] + [(l, t, [r(ops[1]), r(ops[0])])],
+                'users': [], 'blocks': []}
+    for a in all_assignments(dump['inputs']):
+        ref = evalcorr.ref_eval(ref_dump, a)
+        full = impl_full(c, a)
+        for k in ref:
+            if full.get(k) is not ref[k]:
+                return (f'after convert, rename {l} -> {l}~old, add a new {t} gate {l}, convert: gate {k} computes '
+                        f'{full.get(k)} instead of {ref[k]} at {a}')
+    return None
 
 
 # ------------------------------------------------------------------ C19
